@@ -461,12 +461,14 @@ fn long_sequence(rec: &mut Rec, mode: Mode, idx: u64, rng: &mut ChaCha20Rng) {
   // wrong-length inputs are refused and leave the key unchanged
   let check_wrong_len = |rec: &mut Rec, g: &mut GGM| {
     let before = (g.verif_retained_nodes(), g.verif_punctured());
-    for l in [0usize, 2, 3, 33] {
-      let inp = vec![7u8; l];
+    // incl. lengths that equal the right one modulo 2^8 and 2^16
+    for l in [0usize, 2, 3, 33, 255, 256, 257, 258, 512, 513, 769, 65_536, 65_537] {
+      let inp = vec![(7 + l) as u8; l];
       let mut out = [0u8; 32];
       rec.ev("wrong_length_calls");
       let e = g.eval(&inp, &mut out).is_ok();
-      let pu = g.puncture(&inp).is_ok();
+      // (an accepted over-long puncture walks thousands of levels: not attempted once eval was accepted)
+      let pu = !e && g.puncture(&inp).is_ok();
       if e || pu {
         rec.violation("wrong-length-accepted", format!("an input of {} bytes was accepted by {}", l, if e { "eval" } else { "puncture" }), json!({"length": l}));
       }
